@@ -45,11 +45,11 @@ fn py_is_sha(sha: &Py<PyAny>, py: Python) -> PyResult<bool> {
 #[pyfunction]
 fn bisect_find_sha(
     py: Python,
-    start: i32,
-    end: i32,
+    start: i64,
+    end: i64,
     sha: Py<PyBytes>,
     unpack_name: Py<PyAny>,
-) -> PyResult<Option<i32>> {
+) -> PyResult<Option<i64>> {
     // Convert sha_obj to a byte slice
     let sha = sha.as_bytes(py);
     let sha_len = sha.len();
@@ -73,7 +73,9 @@ fn bisect_find_sha(
         if start > end {
             break;
         }
-        let i = (start + end) / 2;
+        // A pack index holds up to 2^32 - 1 entries: 32-bit arithmetic (and
+        // start + end) would overflow on the upper half of that range.
+        let i = start + (end - start) / 2;
 
         let file_sha = unpack_name.call1(py, (i,))?;
         if !py_is_sha(&file_sha, py)? {
